@@ -225,6 +225,10 @@ inductive Op
 /-- what the handler returns: nil, an error of its own, `io.EOF`, or (`readErr`) the error of
 its first failed read if there was one (its own error otherwise) -/
 inductive Ret | ok | fail | eof | readErr
+  /-- the handler returns a `stanza.Error` value -/
+  | stanzaErr
+  /-- the handler returns the stream error `stream.PolicyViolation` -/
+  | streamErr
   deriving DecidableEq, Repr, Inhabited
 
 structure Prog where
@@ -356,6 +360,8 @@ def handleElem (cfg : Cfg) (n : Name) (as : List Attr) (rs1 : RS) (prog : Prog) 
   match prog.ret with
   | .fail => .stop (some inv) ws1.out (.error .handler)
   | .eof => .stop (some inv) ws1.out (.error .handler)
+  | .stanzaErr => .stop (some inv) ws1.out (.error .handler)
+  | .streamErr => .stop (some inv) ws1.out (.error (.streamError "policy-violation"))
   | .readErr =>
     (match es1.rs.sticky with
      | some (.err e) => .stop (some inv) ws1.out (.error e)
@@ -495,6 +501,61 @@ def expectHeader1 : List Tok → String
 def expectHeader : List Tok → String
   | .procInst t i :: ts => if t == "xml" then expectHeader1 ts else expectHeader1 (.procInst t i :: ts)
   | ts => expectHeader1 ts
+
+/-! ### pending local requests (the `sentStanzas` table)
+
+`SendIQ` & co. register the id and the start-tag name of a request that waits for its
+response.  Only an incoming element of type result or error consults the table; when it
+matches, the element is handed to the waiter (no handler runs, nothing is written), the rest of
+it is discarded and the entry disappears with the waiter. -/
+
+structure Pend where
+  id : String
+  name : Name
+  deriving DecidableEq, Repr
+
+/-- `readerChan, ok := s.sentStanzas[id]; ok && name == start.Name || name == {Local: start.Name.Local}` -/
+def pendMatch (pend : List Pend) (id : String) (n : Name) : Option Pend :=
+  match pend.find? (fun p => p.id == id) with
+  | some p => if p.name == n || p.name == ⟨"", n.loc⟩ then some p else none
+  | none => none
+
+/-- is the next element handed to a waiter: the matching entry and the reading state after the
+start tag -/
+def deliveredTo (cfg : Cfg) (pend : List Pend) (rs : RS) : Option (Pend × RS) :=
+  match ({ rs with dOut := 0, sticky := none } : RS).next with
+  | (.tok (.start n as), rs1) =>
+    let as' := blankFrom cfg n as
+    if isReplyTyp (getTyp as') then (pendMatch pend (getId as') n).map fun p => (p, rs1) else none
+  | _ => none
+
+/-- `handleInputStream` with the pending table: the step, the table afterwards and the id of
+the request whose waiter got the element -/
+def handleInputStreamP (cfg : Cfg) (pend : List Pend) (rs : RS) (prog : Prog) : Step × List Pend × Option String :=
+  match deliveredTo cfg pend rs with
+  | some (p, rs1) =>
+    (match discard { rs := rs1, cnt := 0, fin := false } with
+     | (none, es2) => (.next none [] es2.rs, pend.filter (fun q => q.id != p.id), some p.id)
+     | (some e, _) => (.stop none [] (.error e), pend, some p.id))
+  | none => (handleInputStream cfg rs prog, pend, none)
+
+structure OutP where
+  out : Out
+  delivered : List String
+  deriving Repr
+
+def serveFP (cfg : Cfg) : Nat → List Pend → RS → List Prog → OutP
+  | 0, _, _, _ => { out := { invs := [], written := [], result := .error .decoder }, delivered := [] }
+  | fuel + 1, pend, rs, progs =>
+    match handleInputStreamP cfg pend rs (progs.headD Prog.nop) with
+    | (.stop inv w res, _, dl) => { out := { invs := inv.toList, written := w, result := res }, delivered := dl.toList }
+    | (.next inv w rs', pend', dl) =>
+      let o := serveFP cfg fuel pend' rs' (if inv.isSome then progs.tail else progs)
+      { out := { invs := inv.toList ++ o.out.invs, written := w ++ o.out.written, result := o.out.result },
+        delivered := dl.toList ++ o.delivered }
+
+def serveP (cfg : Cfg) (pend : List Pend) (inp : List Tok) (progs : List Prog) : OutP :=
+  serveFP cfg (inp.length + 1) pend (RS.init inp) progs
 
 /-! ### what the peer sees: top-level elements written -/
 
